@@ -200,6 +200,11 @@ def update_packed_value(v: Any, obj: "GuppyObject", builder: DfBase[P]) -> bool:
             for field, out_wire in zip(ty.fields, wire_iterator, strict=True):
                 v = values[field.name]
                 field_obj = GuppyObject(field.ty, out_wire)
+                # Copyable components are values: whoever else holds the old object (an
+                # alias, a variable that was read before the call) must not see the update
+                if isinstance(v, GuppyObject) and v._ty.copyable:
+                    values[field.name] = field_obj
+                    continue
                 success = update_packed_value(v, field_obj, builder)
                 if not success:
                     values[field.name] = field_obj
@@ -209,9 +214,14 @@ def update_packed_value(v: Any, obj: "GuppyObject", builder: DfBase[P]) -> bool:
             wires = unpack_array(builder, obj._use_wire(None))
             for i, (v, wire) in enumerate(zip(vs, wires, strict=True)):
                 elem_obj = GuppyObject(elem_ty, wire)
+                # See the struct case above. Note that the list could be the frozen view
+                # of an owned argument, whose own `__setitem__` is blocked for users
+                if isinstance(v, GuppyObject) and v._ty.copyable:
+                    list.__setitem__(vs, i, elem_obj)
+                    continue
                 success = update_packed_value(v, elem_obj, builder)
                 if not success:
-                    vs[i] = elem_obj
+                    list.__setitem__(vs, i, elem_obj)
         case _:
             return False
     return True
